@@ -205,11 +205,23 @@ def check_one(x, u, zone, unit, op, ws):
     raise Violation(f"{tag}: {kind} boundary resolved to the wrong side and not by the known fold mechanism", got=r.isoformat(), fold=x.fold)
 
 
+# zones whose DST gap touches midnight: clocks jump 23:00 -> 00:00 (last hour of the day skipped) or 00:00 -> 01:00 (midnight skipped)
+EDGE_OF_DAY_GAPS = ["America/Nuuk", "America/Scoresbysund", "Asia/Pyongyang", "Asia/Dhaka", "America/Sao_Paulo", "America/Havana", "Asia/Beirut", "America/Asuncion",
+                    "America/Santiago", "Asia/Amman", "Asia/Damascus", "Africa/Cairo", "Asia/Tehran"]
+
+
 @st.composite
 def boundary_biased_instant(draw, zone):
     """instants on days whose first or last wall time is skipped/repeated, or plain near-transition / uniform ones"""
     tr = T.transitions(zone)
-    k = draw(st.integers(0, 5))
+    k = draw(st.integers(0, 6))
+    gaps = [x for x in tr if x[2] > x[1]]
+    if gaps and k == 6:
+        # some days away from a gap, at a TIME OF DAY inside the skipped interval: week navigation that keeps the time of day while changing the date
+        # lands on a wall time that does not exist on the boundary day
+        t, a, b = gaps[draw(st.integers(0, len(gaps) - 1))]
+        w = (t + a) * US + draw(S.uni(0, (b - a) * US - 1)) + draw(st.integers(-7, 7)) * 86400 * US
+        return S.clamp_u(w - T.offset_at(S.clamp_u(w), zone) * US)
     if tr and k <= 2:
         t, a, b = tr[draw(st.integers(0, len(tr) - 1))]
         # somewhere in the local day (or the day before/after) of the transition
@@ -221,7 +233,7 @@ def boundary_biased_instant(draw, zone):
 
 @st.composite
 def dt_case(draw):
-    z = draw(S.zones())
+    z = draw(st.one_of(S.zones(), S.zones(), st.sampled_from(EDGE_OF_DAY_GAPS)))
     return {"zone": z, "u": draw(boundary_biased_instant(z)), "prov": draw(st.sampled_from(PROVS)), "ws": draw(st.sampled_from([0, 0, 6, 5, 1, 2, 3, 4])),
             "units": draw(st.lists(st.sampled_from(UNITS), min_size=3, max_size=9, unique=True))}
 
